@@ -125,7 +125,8 @@ func (i *Index) Encode() ([]byte, error) {
 	if err := utils.Compress(buf, compressed); err != nil {
 		return nil, err
 	}
-	return compressed.Bytes(), nil
+	// the buffer goes back to the pool: hand out a copy
+	return bytes.Clone(compressed.Bytes()), nil
 }
 
 func (i *Index) Decode(index []byte) error {
